@@ -33,7 +33,7 @@
 EXTENDS Consumers, Json
 CONSTANTS MaxOwn,      \* own steps per scenario
           MaxScen,     \* scenarios of the main feature
-          TwoFeat,     \* also runs with a second (fixed) feature before / after the main one
+          OtherModes,  \* subset of {"none", "before", "after"}: a second (fixed) feature before / after the main one
           EmitMod
 
 Stoppers == {"fail", "undef", "bad", "skip"}
@@ -53,7 +53,7 @@ RuleShapes == {[kind |-> "none", sel |-> TRUE, rbg |-> 0, n |-> 0]}
               \cup {[kind |-> "rule", sel |-> s, rbg |-> b, n |-> n] : s \in BOOLEAN, b \in 0..1, n \in 1..2}
 Shapes == {[dry |-> d, ss |-> ss, fsel |-> fs, fbg |-> fb, npre |-> np, rule |-> r, other |-> o] :
               d \in BOOLEAN, ss \in BOOLEAN, fs \in BOOLEAN, fb \in 0..1, np \in 0..2, r \in RuleShapes,
-              o \in (IF TwoFeat THEN {"none", "before", "after"} ELSE {"none"})}
+              o \in OtherModes}
 ShapeOK(sh) == sh.npre + sh.rule.n \in 1..MaxScen
 RunsOf(sh) ==
    LET pool(selected) == IF selected THEN SelScens(sh.dry) \cup UnselScens ELSE UnselScens
